@@ -124,7 +124,8 @@ def build(fluxcase, rendered, damage=None):
             order = flux.sector_order(rng, spt, fluxcase.get('order'))
             surf = rendered[s]
             marks = fluxcase.get('marks') or {}
-            secs = [(r, surf[(t * spt + r) * 256:(t * spt + r + 1) * 256], marks.get('%d:%d:%d' % (s, t, r), 0xFB)) for r in order]
+            reid = fluxcase.get('reid') or {}
+            secs = [(r, surf[(t * spt + r) * 256:(t * spt + r + 1) * 256], marks.get('%d:%d:%d' % (s, t, r), 0xFB), reid.get('%d:%d:%d' % (s, t, r))) for r in order]
             cells, regions = flux.encode_track(enc, t, s, secs, p)
             info['regions'][(s, t)] = regions
             info['order'][(s, t)] = order
